@@ -211,7 +211,13 @@ TEXT_HIST = H.s_history(max_tests=5, with_run=False, with_control=False, with_ta
 @st.composite
 def s_text(draw):
     runs = [draw(TEXT_HIST)["ops"] for _ in range(draw(st.sampled_from([1, 1, 2])))]
-    return {"runs": runs, "wraps": draw(st.lists(st.sampled_from(WRAPS), max_size=2)), "failfast": draw(st.booleans()),
+    # problems reported about something that is not a started test (what unittest does when setUpClass /
+    # setUpModule raises): (position among the ops, kind)
+    holders = [[(draw(st.integers(0, len(ops))), draw(st.sampled_from(["error", "error", "failure"])))
+                for _ in range(draw(st.sampled_from([0, 0, 0, 1, 2])))] for ops in runs]
+    if draw(st.integers(0, 7)) == 0:
+        runs = [[] for _ in runs]          # nothing but such reports: no test is ever started
+    return {"runs": runs, "holders": holders, "wraps": draw(st.lists(st.sampled_from(WRAPS), max_size=2)), "failfast": draw(st.booleans()),
             "id_mod": draw(st.sampled_from([99, 99, 2, 1]))}
 
 
@@ -227,15 +233,26 @@ def run_text(spec):
              "Tagger": lambda x: real.Tagger(x, {"x"}, set())}[w](r)
     driver = testtools.ExtendedToOriginalDecorator(r)
     total_problems = 0
-    for ops in spec["runs"]:
+    for run_no, ops in enumerate(spec["runs"]):
         stream.seek(0)
         stream.truncate(0)
         driver.startTestRun()
         n = 0
         problems = []       # (label, id)
         cur = None
-        for op in ops:
+        pending = sorted((min(pos, len(ops)), j, kind) for j, (pos, kind) in enumerate(spec.get("holders", [[]] * 9)[run_no]))
+        in_test = False
+
+        def holders_due(at):
+            while pending and pending[0][0] <= at and not in_test:
+                pos, j, kind = pending.pop(0)
+                holder = H.make_test(900 + j, "placeholder")
+                getattr(driver, "addError" if kind == "error" else "addFailure")(holder, details={})
+                problems.append(("ERROR" if kind == "error" else "FAIL", holder.id()))
+        for at, op in enumerate(ops):
+            holders_due(at)
             k = op["op"]
+            in_test = k in ("startTest", "outcome") or (in_test and k != "stopTest")
             if k == "startTest":
                 cur = H.make_test(op["i"] % spec.get("id_mod", 99), "case")
                 driver.startTest(cur)
@@ -249,6 +266,8 @@ def run_text(spec):
                 driver.stopTest(cur)
             elif k == "time":
                 driver.time(H.ts(op["t"]))
+        in_test = False
+        holders_due(len(ops) + 1)
         driver.time(None)
         driver.stopTestRun()
         out = stream.getvalue()
@@ -281,7 +300,9 @@ def run_text(spec):
             vs.append(V("text", "wasSuccessful", "wasSuccessful() %r with problems %r" % (inner.wasSuccessful(), problems)))
         total_problems += len(problems)
     nt = len(spec["runs"]) >= 2 or total_problems >= 2
-    return Case(vs, nt, ["runs=%d" % len(spec["runs"]), "problems=%d" % min(total_problems, 5)], {"tail": out[-120:]})
+    return Case(vs, nt, ["runs=%d" % len(spec["runs"]), "problems=%d" % min(total_problems, 5),
+                         "unbracketed-problem" if any(spec.get("holders", [])) else "",
+                         "no-test-started" if not any(spec["runs"]) else ""], {"tail": out[-120:]})
 
 
 # ---------------------------------------------------------------- suites of real tests, runner, exit status
